@@ -404,6 +404,27 @@ func (c14Checker) Run(tp *Tapes, opt RunOpt) *Outcome {
 					}
 				}
 			}
+			// the same template with a nil Context, before and after the caller changes a global
+			onNil := func(ep int) *ExecResult {
+				w.Plan = nil
+				w.active = map[int]int{}
+				w.OpBegin(opn)
+				r := w.Exec(tpl, ep, nil, sp.Blocks)
+				w.OpEnd(opn)
+				opn++
+				out.Execs++
+				return r
+			}
+			for round := 0; round < 2 && len(out.Violations) == 0; round++ {
+				lastCase = &c14Case{Entry: fmt.Sprintf("same template, nil Context, round %d (set.Globals[\"glob\"] reassigned between the rounds)", round)}
+				var rs []*ExecResult
+				for _, ep := range eps {
+					rs = append(rs, onNil(ep))
+				}
+				out.probe("nil_context_rounds")
+				agree(rs, "nil context, globals changed between rounds")
+				set.Globals["glob"] = "G-changed<&>"
+			}
 		}
 		SetCurWorld(old)
 	}
